@@ -105,6 +105,9 @@ class World:
 
     # ------------------------------------------------------------ server
     def _label_of_pathio(self, inst):
+        lab = SESSION.get()
+        if lab is not None:
+            return lab
         conn = getattr(inst, "connection", None)
         if conn is None:
             return None
